@@ -576,6 +576,12 @@ func (cs *ContractSet) parseFile(pkg, path, src string) error {
 				return errf("%v", err)
 			}
 			cur.foralls = append(cur.foralls, ps...)
+		case "do":
+			e, _, err := parseExpr(rest)
+			if err != nil {
+				return errf("%v", err)
+			}
+			cur.script = append(cur.script, scriptStmt{kind: "do", let: letStmt{name: "_", expr: e, text: rest}, text: rest})
 		case "let", "prelet":
 			i := strings.Index(rest, "=")
 			if i < 0 {
@@ -1154,6 +1160,7 @@ func (x *Exec) evalCall(st *State, env *Env, n *ECall) Value {
 		}
 	}
 	if f.fn != nil {
+		args = x.packVariadic(st, args, f.fn.Signature)
 		x.coerceArgs(args, f.fn.Signature)
 	}
 	return x.specGoCall(st, func() []Out { return x.callClosure(st, f, args, 1) })
@@ -1169,6 +1176,36 @@ func (x *Exec) funcField(st *State, v Value, name string) (f *Func, ok bool) {
 	fv := x.selectField(st, v, name)
 	f, ok = fv.(*Func)
 	return
+}
+
+// packVariadic turns trailing spec arguments into the slice a variadic
+// function expects.
+func (x *Exec) packVariadic(st *State, args []Value, sig *types.Signature) []Value {
+	if !sig.Variadic() {
+		return args
+	}
+	n := sig.Params().Len()
+	if len(args) == n {
+		if _, ok := args[n-1].(*SliceV); ok {
+			return args
+		}
+	}
+	if len(args) < n-1 {
+		return args
+	}
+	st2 := sig.Params().At(n - 1).Type().(*types.Slice)
+	rest := args[n-1:]
+	el := make([]Value, len(rest))
+	for i, a := range rest {
+		el[i] = x.coerceTo(a, st2.Elem())
+		if ao, ok := a.(*AbsObj); ok {
+			el[i] = ao
+		}
+	}
+	cell := newCell("variadic", types.NewArray(st2.Elem(), int64(len(el))))
+	st.store[cell] = &Tuple{typ: cell.typ, el: el}
+	out := append([]Value{}, args[:n-1]...)
+	return append(out, &SliceV{cell: cell, off: mkInt(0), len: mkInt(int64(len(el))), cap: mkInt(int64(len(el))), elem: st2.Elem()})
 }
 
 func (x *Exec) coerceArgs(args []Value, sig *types.Signature) {
